@@ -8,3 +8,9 @@ package interrupt
 //@ func RegisterCleaner
 //@   trusted
 //@   modifies nothing
+
+// Cancelling a temporary cleaner (C19: the cleaner that closes the backend - and gives the lock back - when the command
+// is interrupted must stay registered): it disables that one cleaner and leaves every other one as it was.
+//@ func RegisterCleaner$1
+//@   props C19
+//@   ensures [only-this-cleaner-is-disabled] w.disabled && len(cleaners) == old(len(cleaners)) && (forall k int :: { cleaners[k] } 0 <= k && k < len(cleaners) ==> cleaners[k] == old(cleaners[k]) && (cleaners[k] != w ==> cleaners[k].disabled == old(cleaners[k].disabled)))
